@@ -171,7 +171,7 @@ DETECT.update({
     "C03-h": (["C03", "C01", "C05"], "DETECTED", "a refused block play no longer discards the cache view in which the conflicting pending transactions were already rolled back: a second spender is admitted"),
     "C04-h": (["C04"], "DETECTED", "Truncate deletes the tx records of removed blocks although a surviving side block carries the transaction"),
     "C05-h": (["C05"], "DETECTED", "ConfirmBlock resets its shared batch after a successful write only (a failed confirmation leaves residue for the next one)"),
-    "C06-h": ([], "MISSED", "NOT DETECTED, not built: Miner.Start gets a restart shortcut (ledger tip is an own block on top of the state tip: PlayForMiner instead of Walk), wrong after an interrupted truncation. C06 restarts a crash image with State.Walk to the ledger tip - the statement's own recovery step - not through the miner loop, and its histories mine with foreign proposer keys (blocks of the node's own address come from the real packBlock only in C13). Driving Miner.Start on every image plus own-address blocks in the C06 mix was not built in the time left"),
+    "C06-h": (["C06"], "MISSED", "needed (1) the restarted node's OWN recovery procedure on every crash image - the start of the real miner loop (Miner.Start until it asks the consensus for its turn) instead of a plain State.Walk - and (2) blocks mined under the node's own address through the real packBlock in the C06 mix: a truncation interrupted between the state walk and the ledger batch leaves 'ledger tip = own block on top of the state tip', which the shortcut plays with PlayForMiner"),
     "C07-h": (["C07"], "MISSED", "needed a delivery HISTORY at the real entry point: the child overtakes its parent (verified, refused for lack of its input), the parent arrives, then another body arrives under the child's id (Chain.SubmitTx remembered the id as verified)"),
     "C08-h": (["C08"], "DETECTED", "SavePendingBlock keeps an existing entry: a refused tampered copy shadows the genuine block of the same id (sync-path sub-check)"),
     "C09-h": (["C09", "C01"], "DETECTED", "UndoTx leaves the delete marker when it undoes a delete of a live key (same idea as C01-a)"),
